@@ -96,6 +96,9 @@ macro_rules! dispatch {
 }
 
 fn dbg_share(id: &str) -> DbgShare {
+    if std::env::var_os("VERIF_NO_DBG").is_some() {
+        return DbgShare::None; // coverage measurement builds one profile only
+    }
     match id {
         "C02" | "C13" => DbgShare::Both,
         "C14" | "C16" => DbgShare::None,
